@@ -11,6 +11,9 @@ from .contracts import ContractTable, ALLNONE
 from . import solver
 
 
+NESTED_ARITY = {"value": 2}        # J: nested n-ary children get arities 0..J (quick 2, thorough 3)
+
+
 class Obl:
     """One proof obligation and its verdict."""
     def __init__(self, name, props, assumptions, goal, kind="post", info=None, bounded=None, path_labels=None):
@@ -127,10 +130,12 @@ class Family:
 
 
 def run_family(prog, fam_name, setup, post, contracts=None, force_contract=(), bounded=None,
-               max_paths=3000, nested_arity=2):
+               max_paths=6000, nested_arity=None):
     """setup(I) -> thunk (runs the method);  post(I, result, emit) emits clause obligations."""
     fam = Family(fam_name, bounded)
     t0 = time.time()
+    if nested_arity is None:
+        nested_arity = NESTED_ARITY["value"]
     ct = contracts or ContractTable(prog, nested_arity=nested_arity)
 
     def make_run(path):
